@@ -92,3 +92,11 @@ func NewPruneServiceForVerif(name string) Service {
 func NewDeadLetterServiceForVerif() Service {
 	return &deadLetter{}
 }
+
+// NewPgNotifierServiceForVerif returns a fresh instance of the service that
+// relays notifications between processes through PostgreSQL LISTEN/NOTIFY, so
+// that a verification harness can run it (Initialize, Start) the way the
+// server does, also on a database that is not PostgreSQL.
+func NewPgNotifierServiceForVerif() Service {
+	return &pgNotifier{}
+}
